@@ -11,6 +11,7 @@ access on records, calls of names bound to Python callables in the concrete envi
 error naming the construct (never a silent pass).
 """
 import ast
+import math
 import inspect
 import os
 import struct
@@ -272,6 +273,9 @@ class Interp:
         fname = n.func.id if isinstance(n.func, ast.Name) else None
         args = [self.ev(a) for a in n.args]
         if n.keywords:
+            f = self.ev(n.func)
+            if f is math.isclose and all(k.arg in ("rel_tol", "abs_tol") for k in n.keywords):
+                return self.math_isclose(*args, **{k.arg: self.ev(k.value) for k in n.keywords})
             raise Unsupported("keyword call")
         if fname == "round" and len(args) == 1:
             if is_sym(args[0]):
@@ -297,9 +301,30 @@ class Interp:
         f = self.ev(n.func)
         if inspect.isfunction(f) and (getattr(f, "__module__", "") or "").startswith("praatio"):
             return self.inline(f, args)
+        if f is math.isclose and len(args) == 2:
+            return self.math_isclose(*args)
         if callable(f) and not is_sym(f):
+            if inspect.isbuiltin(f) and any(is_sym(a) for a in args):
+                raise Unsupported("call of %s with symbolic arguments" % ast.unparse(n.func)[:60])
             return f(*args)
         raise Unsupported("call " + ast.unparse(n)[:80])
+
+    def math_isclose(self, a, b, rel_tol=1e-09, abs_tol=0.0):
+        """CPython's math.isclose on finite doubles (Modules/mathmodule.c):
+        a == b or |b-a| <= |rel_tol*b| or |b-a| <= |rel_tol*a| or |b-a| <= abs_tol"""
+        if not (is_sym(a) or is_sym(b)):
+            return math.isclose(a, b, rel_tol=rel_tol, abs_tol=abs_tol)
+        a = a if is_sym(a) else fpv(float(a))
+        b = b if is_sym(b) else fpv(float(b))
+        if self.ctx.branch(z3.fpEQ(a, b)):
+            return True
+        diff = z3.fpAbs(z3.fpSub(RNE, b, a))
+        rt = fpv(float(rel_tol))
+        if self.ctx.branch(z3.fpLEQ(diff, z3.fpAbs(z3.fpMul(RNE, rt, b)))):
+            return True
+        if self.ctx.branch(z3.fpLEQ(diff, z3.fpAbs(z3.fpMul(RNE, rt, a)))):
+            return True
+        return self.ctx.branch(z3.fpLEQ(diff, fpv(float(abs_tol))))
 
     def inline(self, f, args):
         """interpret the body of a praatio function with the given (possibly symbolic)
